@@ -65,6 +65,30 @@ def run(rep, tier):
                  'call in the other operand (f(x) and 0, 0 and f(x), ...), so the trace shows its entry (import of C07-R8, call instances)', floor=4)
         c07.rule_fold_effects(_report.Import(rep, 'R9', 'C07', key_filter=lambda r, k: 'call' in k), cast.load('xcmp.cpp'))
 
+    def rule_call_statement_calls(rep):
+        """Every path through the code generator for a call statement emits a call sequence: a shortcut that re-enters the callee
+        anywhere but at its entry (a hand-made tail call, an elided call) removes an entry from the trace."""
+        from .. import flow
+        rep.rule('R10', 'a call statement is always compiled into a call: StmtCodeGen::visitPost(CallStatement&) reaches genProcCall or '
+                 'genSysCall on every path (no branch that returns after emitting a jump instead), so the callee is entered at offset 0 as '
+                 'often as the source calls it', floor=1)
+        ix = cast.load('xcmp.cpp')
+        cands = [g for g in ix.all_funcs() if g.name == 'visitPost' and g.body is not None and len(g.params) == 1 and
+                 'CallStatement' in qt(g.params[0]) and 'StmtCodeGen' in g.qname]
+        if len(cands) != 1:
+            raise AnalysisBroken('StmtCodeGen::visitPost(CallStatement&) not found (candidates: %d)' % len(cands))
+        f = cands[0]
+
+        class C(flow.Client):
+            def expr(self_, e, s_):
+                return [s_ or any(callee_of(c)[1] in ('genProcCall', 'genSysCall', 'genFuncCall') for c in cast.calls_in(e))]
+        o = flow.Flow(C(), ix).run(f.body, {False})
+        exits = set(o.normal) | {s_ for s_, _ in o.ret}
+        rep.add('R10', 'StmtCodeGen::visitPost(CallStatement):call-on-every-path', bool(exits) and all(exits), pos(f.node) + ' ' + f.qname,
+                'a call sequence is generated on every path' if exits and all(exits) else
+                'code generation for a call statement can return without generating a call (e.g. a jump back into the body for a self tail '
+                'call): the callee is then not entered at its entry, the trace shows no name+0 for that call')
+
     def rule_every_proc_listed(rep):
         """Compiler side of "the symbol table lists every procedure and function of the program once": code generation for a Proc node
         reaches the prologue directive (which lowering turns into the PROC / FUNC directive the assembler records) on every path."""
@@ -87,7 +111,7 @@ def run(rep, tier):
                any(callee_of(c)[1] in ('genProc', 'genFunc') for c in cast.calls_in(g.body))]
         rep.add('R7', 'LowerDirectives:prologue-to-PROC/FUNC', bool(low), low[0].qname if low else 'xcmp::LowerDirectives',
                 'lowering emits genProc / genFunc' if low else 'no genProc / genFunc in LowerDirectives', nontrivial=False)
-    for fn, a in ((rule_calls_not_elided, (rep,)), (rule_calls_not_folded, (rep,)), (rule_every_proc_listed, (rep,)), (rule_prefix, (rep, idx)), (rule_format, (rep, idx)), (rule_symbols, (rep,)), (rule_lookup, (rep, idx)), (rule_symbol_offset, (rep, idx)), (rule_loader_keeps, (rep, idx))):
+    for fn, a in ((rule_calls_not_elided, (rep,)), (rule_calls_not_folded, (rep,)), (rule_call_statement_calls, (rep,)), (rule_every_proc_listed, (rep,)), (rule_prefix, (rep, idx)), (rule_format, (rep, idx)), (rule_symbols, (rep,)), (rule_lookup, (rep, idx)), (rule_symbol_offset, (rep, idx)), (rule_loader_keeps, (rep, idx))):
         try:
             fn(*a)
         except AnalysisBroken as e:
